@@ -8,6 +8,7 @@ import Aldy.Driver.C10
 import Aldy.Driver.C12
 import Aldy.Driver.C06
 import Aldy.Driver.C07
+import Aldy.Driver.C08
 
 /-! Line-protocol driver: one JSON object per input line (`{"op": ..., ...}`), one JSON
 object per output line.  Errors are reported as `{"error": msg}`; the driver never guesses. -/
@@ -36,6 +37,7 @@ def dispatch (j : Json) : Except String Json := do
   | "writers" => opWriters j
   | "pileup" => opPileup j
   | "normalize" => opNormalize j
+  | "coords" => opCoords j
   | "ping" => pure (objJ [("pong", boolJ true)])
   | _ => .error s!"unknown op {op}"
 
